@@ -32,7 +32,7 @@ def rules(ctx, report, facts, config, pfx="C01"):
     report.guard(pfx + ".SLOT", S.slot, ctx, report, pfx + ".SLOT", facts, config)
     report.guard(pfx + ".LOCKSTEP", S.lockstep, ctx, report, pfx + ".LOCKSTEP", facts, config)
     report.guard(pfx + ".EXEC", F.check_family, ctx, report, pfx + ".EXEC", facts, config, (F.RUN,), lambda i: i in EXEC_IDS)
-    report.guard(pfx + ".EXEC", S.pool_inventory, ctx, report, pfx + ".EXEC", facts, config)
+    report.guard(pfx + ".EXEC", S.pool_inventory, ctx, report, pfx + ".EXEC", facts, config, True)
 
 
 def run(ctx, report):
